@@ -209,6 +209,11 @@ def raii_guard_of(ctx, f, field_q):
         sets = any(_writes_bool(ctx, c, True, field_q) for c in ctors)
         clears = all(_writes_bool(ctx, d, False, field_q) for d in dtors)
         if sets and clears:
+            # a constructor that can throw after it has set the flag leaves the flag set (no destructor runs)
+            for c in ctors:
+                late = _may_throw_after_set(c)
+                if late is not None:
+                    x["_guard_problem"] = (late, c)
             return x, cls
     return None
 
@@ -236,6 +241,25 @@ def _writes_bool(ctx, func, value, field_q):
     return False
 
 
+def _may_throw_after_set(ctor):
+    """A call in the guard's constructor body that is reachable after the flag was set to true."""
+    g = cfg_of(ctor)
+    setn = None
+    for x in walk(ctor.body):
+        if x.get("kind") == "BinaryOperator" and x.get("opcode") == "=" and canon(children(x)[1]) == ("lit", True):
+            setn = g.node_for(x)
+    if setn is None:
+        return None
+    reach = g.reachable_from([setn])
+    for x in may_throw_calls(ctor):
+        n = g.node_for(x)
+        if n is not None and (n.idx in reach or n is setn) :
+            if n is setn and x.get("kind") != "CXXMemberCallExpr":
+                continue
+            return x
+    return None
+
+
 def check_busy_flag(ctx, rep, f):
     field_q = CQ + "Circuit::isInUse_"
     g = cfg_of(f)
@@ -253,7 +277,13 @@ def check_busy_flag(ctx, rep, f):
         var, cls = guard
         vn = g.node_for(var)
         okdom = all(g.dominates(vn, g.node_for(pc)) for pc in placer_calls)
-        if okdom:
+        if var.get("_guard_problem"):
+            late, c = var["_guard_problem"]
+            rep.violation("X1", late, c, "busy guard %s can throw after it has set the flag" % short(cls),
+                          "an exception leaving the constructor (%s) means the destructor never runs: isInUse_ stays true after the call has ended" % (
+                              callee_info(late)["qname"].replace(CQ, "") if callee_info(late) else "call"),
+                          key="%s|guard constructor throws after set" % f.short)
+        elif okdom:
             rep.holds("X1", var, f, "busy flag owned by RAII guard %s" % short(cls),
                       "constructor sets, destructor clears; declared before the placer call -> cleared on every exit")
         else:
